@@ -72,6 +72,11 @@ pub fn preprocess(expr: &str, file_id: FileID) -> Result<String, Box<Report>> {
             }
         }
     }
+    if state == 2 {
+        // The input ended inside a block comment.
+        let error = UnclosedCommentError { location: block_start..block_start, file_id };
+        return Err(Box::new(error.into_report()));
+    }
     Ok(pp)
 }
 
